@@ -316,7 +316,7 @@ def rule_specs(chk, prog):
     v, ctx, env = ev.run(f)
     call = shmap_call(ev, fname)
     a = list(call.a[1])
-    kw = dict(call.a[2])
+    kw = util.call_kwargs(call)
     mesh = a[1] if len(a) > 1 else kw.get('mesh')
     ins = a[2] if len(a) > 2 else kw.get('in_specs')
     outs = a[3] if len(a) > 3 else kw.get('out_specs')
@@ -352,7 +352,7 @@ def rule_specs(chk, prog):
     a = list(se[0].a[1])
     chk.check(a[1:] == [S('lhs'), S('rhs')], rule, f'{site}: operands are forwarded in order (lhs, rhs)', str([sym.show(z) for z in a[1:]]), loc)
   nomesh = v.a[1] if v.k == 'phi' and sym.show(v.a[0]) == '(mesh is None)' else None
-  ok = nomesh is not None and match.einsum_parts(nomesh) is not None and list(nomesh.a[1]) == [S('subscripts'), S('lhs'), S('rhs')] and dict(nomesh.a[2]).get('precision') == S('precision')
+  ok = nomesh is not None and match.einsum_parts(nomesh) is not None and list(nomesh.a[1]) == [S('subscripts'), S('lhs'), S('rhs')] and util.call_kwargs(nomesh).get('precision') == S('precision')
   chk.check(ok, rule, f'{site}: without a mesh it is the plain einsum with the same subscripts, operands and precision', sym.show(nomesh)[:160] if nomesh is not None else 'n/a', loc)
   chk.at_least(rule, 14)
 
@@ -369,7 +369,7 @@ def rule_sharded_einsum(chk, prog):
   if not chk.check(ok, rule, f'{site}: branches on the presence of a mesh', sym.show(v, maxdepth=2)[:120], loc):
     return
   nm = v.a[1]
-  chk.check(match.einsum_parts(nm) is not None and list(nm.a[1]) == [S('subscripts'), S('lhs'), S('rhs')] and dict(nm.a[2]) == {'precision': S('precision')}, rule,
+  chk.check(match.einsum_parts(nm) is not None and list(nm.a[1]) == [S('subscripts'), S('lhs'), S('rhs')] and util.call_kwargs(nm) == {'precision': S('precision')}, rule,
             f'{site}: without a mesh → jnp.einsum(subscripts, lhs, rhs, precision=precision)', sym.show(nm), loc)
   body = v.a[2]
   parse = Term('call', Term('func', f'dinosaur.{JU}._parse_einsum_subscripts'), (S('subscripts'),), ())
@@ -383,7 +383,7 @@ def rule_sharded_einsum(chk, prog):
   if chk.check(okg, rule, f'{site}: gather_inputs selects the all-gather schedule, otherwise the reduce-scatter schedule', sym.show(body, maxdepth=2)[:160], loc):
     for arm, axkw, want_axis, which in ((arms[0], 'split_axis', idx(lhs_s, red), 'contracted (reduce)'), (arms[1], 'scatter_axis', idx(lhs_s, tra), 'transferred (output)')):
       kw = util.call_kwargs(arm)
-      a = list(arm.a[1])
+      a = [kw.get(n_) for n_ in ('einsum_spec', 'lhs', 'rhs')]
       chk.check(a == [S('subscripts'), S('lhs'), S('rhs')], rule, f'{site}: {util.callee_name(arm)} receives (subscripts, lhs, rhs)', str([sym.show(z) for z in a]), loc)
       chk.check(kw.get(axkw) == want_axis, rule, f'{site}: {util.callee_name(arm)} splits lhs along the position of the {which} subscript', sym.show(kw.get(axkw))[:120] if kw.get(axkw) is not None else 'missing', loc,
                 sym.show(want_axis)[:120], sym.show(kw.get(axkw))[:120] if kw.get(axkw) is not None else 'missing')
@@ -393,7 +393,7 @@ def rule_sharded_einsum(chk, prog):
     okc = gcond is not None and gcond.k == 'phi' and sym.show(gcond.a[0]) == '(gather_inputs is None)' and gcond.a[2] == S('gather_inputs')
     chk.check(okc, rule, f'{site}: an explicit gather_inputs is honoured; the default compares output and rhs sizes', sym.show(gcond)[:160] if gcond is not None else 'n/a', loc)
   call = shmap_call(ev, 'sharded_einsum')
-  kw = dict(call.a[2])
+  kw = util.call_kwargs(call)
   ins = kw.get('in_specs')
   okm = kw.get('mesh') == S('mesh') and kw.get('out_specs') == S('out_spec') and ins is not None and ins.k == 'tuple' and len(ins.a) == 2 and ins.a[1] == S('rhs_spec')
   chk.check(okm, rule, f'{site}: shard_map(mesh=mesh, in_specs=(lhs_spec, rhs_spec), out_specs=out_spec)', sym.show(call, maxdepth=3)[:200], loc)
@@ -507,7 +507,7 @@ class Schedule:
       return list(range(self.n))
     if t.k == 'call' and t.a[0] == Term('ext', 'jax.lax.ppermute'):
       src = self.value(t.a[1][0], env)
-      perm = fold_perm(dict(t.a[2])['perm'], self.n)
+      perm = fold_perm(util.call_kwargs(t)['perm'], self.n)
       out = [None] * self.n if not isinstance(src[0], list) else [[] for _ in range(self.n)]
       for s_, d_ in perm:
         out[d_] = src[s_]
@@ -553,7 +553,7 @@ def run_schedule(ev, fqual, prog, n):
       return [a + b for a, b in zip(l, r)]
     if t.k == 'call' and t.a[0] == Term('ext', 'jax.lax.ppermute'):
       src = eval_top(t.a[1][0], env_)
-      perm = fold_perm(dict(t.a[2])['perm'], n)
+      perm = fold_perm(util.call_kwargs(t)['perm'], n)
       out = [[] for _ in range(n)]
       for s_, d_ in perm:
         out[d_] = src[s_]
@@ -648,7 +648,7 @@ def rule_cumsum(chk, prog):
     okp = util.callee_name(par) == '_parallel_dot_cumsum' and kw.get('axis') == S('axis') and kw.get('reverse') == S('reverse') and sym.show(kw.get('axis_name')) == 'sharding.spec[axis]'
     chk.check(okp, rule, f'{site}: the parallel path sums along the same axis / direction and communicates over the mesh axis named by the spec entry of that axis', sym.show(par)[:160], loc)
     call = shmap_call(ev, '_dot_cumsum')
-    k2 = dict(call.a[2])
+    k2 = util.call_kwargs(call)
     oks = sym.show(k2.get('mesh')) == 'sharding.mesh' and sym.show(k2.get('in_specs')) == '(sharding.spec)' and sym.show(k2.get('out_specs')) == 'sharding.spec'
     chk.check(oks, rule, f'{site}: shard_map uses the sharding\'s own mesh and spec for input and output', sym.show(call, maxdepth=2)[:160], loc)
   # the parallel algorithm: local prefix sums + sums of the preceding (following) shards
@@ -663,7 +663,7 @@ def rule_cumsum(chk, prog):
   okl = last is not None and last.k == 'call' and last.a[0] == Term('ext', 'jax.lax.index_in_dim') and last.a[1][0] == parts and sym.show(last.a[1][1], maxdepth=20) == 'φ(reverse ? 0 : -1)' and last.a[1][2] == S('axis')
   chk.check(okl, rule, f'{site}: each shard contributes its total = last (first, if reversed) local prefix sum', sym.show(last)[:120] if last is not None else 'missing', loc, 'index_in_dim(partials, 0 if reverse else -1, axis)', sym.show(last)[:120] if last is not None else '')
   sums = env.get('sums')
-  oks = sums is not None and sums.k == 'call' and sums.a[0] == Term('ext', 'jax.lax.all_gather') and list(sums.a[1][:2]) == [last, S('axis_name')] and dict(sums.a[2]).get('tiled') == sym.TRUE
+  oks = sums is not None and sums.k == 'call' and sums.a[0] == Term('ext', 'jax.lax.all_gather') and list(sums.a[1][:2]) == [last, S('axis_name')] and util.call_kwargs(sums).get('tiled') == sym.TRUE
   chk.check(oks, rule, f'{site}: shard totals are all-gathered over the named mesh axis', sym.show(sums)[:120] if sums is not None else 'missing', loc)
   tot = env.get('total')
   okt = False
